@@ -165,6 +165,76 @@ where
     f
 }
 
+
+// ------------------------------------------------------------------------------------ two values, one deserializer
+/// `a` then `b` encoded back to back and decoded with ONE deserializer (as every composite, frame and message
+/// decoder does): reading `a` - as a Value or as a LazyValue - must leave `b` untouched, through both readers.
+pub fn check_sequence(a: &Value, b: &Value) -> Vec<(String, String)> {
+    use serde::Deserialize;
+    use serde_amqp::de::Deserializer;
+    use serde_amqp::lazy::LazyValue;
+    use serde_amqp::read::{IoReader, SliceReader};
+    let mut f = vec![];
+    let (Ok(Ok(ea)), Ok(Ok(eb))) = (catch(|| serde_amqp::to_vec(a)), catch(|| serde_amqp::to_vec(b))) else {
+        return f;
+    };
+    if catch(|| serde_amqp::from_slice::<Value>(&ea)).map(|r| r.ok()).ok().flatten().as_ref() != Some(a)
+        || catch(|| serde_amqp::from_slice::<Value>(&eb)).map(|r| r.ok()).ok().flatten().as_ref() != Some(b)
+    {
+        return f; // does not round-trip on its own: C03's business
+    }
+    let mut both = ea.clone();
+    both.extend_from_slice(&eb);
+    let what = format!("{} then {}", corpus::shape(a), corpus::shape(b));
+    for lazy_first in [false, true] {
+        for io in [false, true] {
+            let r = catch(|| -> Result<(bool, Value), String> {
+                if io {
+                    let mut de = Deserializer::new(IoReader::new(std::io::Cursor::new(&both[..])));
+                    let first_ok = if lazy_first {
+                        LazyValue::deserialize(&mut de).map_err(|e| format!("first: {e}"))?.as_slice() == &ea[..]
+                    } else {
+                        &Value::deserialize(&mut de).map_err(|e| format!("first: {e}"))? == a
+                    };
+                    let second = Value::deserialize(&mut de).map_err(|e| format!("second: {e}"))?;
+                    Ok((first_ok, second))
+                } else {
+                    let mut de = Deserializer::new(SliceReader::new(&both[..]));
+                    let first_ok = if lazy_first {
+                        LazyValue::deserialize(&mut de).map_err(|e| format!("first: {e}"))?.as_slice() == &ea[..]
+                    } else {
+                        &Value::deserialize(&mut de).map_err(|e| format!("first: {e}"))? == a
+                    };
+                    let second = Value::deserialize(&mut de).map_err(|e| format!("second: {e}"))?;
+                    Ok((first_ok, second))
+                }
+            });
+            let how = format!("{} first, {} reader", if lazy_first { "LazyValue" } else { "Value" }, if io { "io" } else { "slice" });
+            match r {
+                Ok(Ok((first_ok, second))) => {
+                    if !first_ok {
+                        f.push((format!("sequence-first-differs [{}]", if lazy_first { "lazy" } else { "value" }), format!("{what} ({how}): the first value read from {} is not the first value written", hex(&both))));
+                    }
+                    if &second != b {
+                        f.push((
+                            format!("sequence-second-value-disturbed [{} first]", if lazy_first { "lazy" } else { "value" }),
+                            format!("{what} ({how}): after reading the first value from {} the second one decodes to {} instead of {}", hex(&both), trunc(&format!("{:?}", second)), trunc(&format!("{:?}", b))),
+                        ));
+                    }
+                }
+                Ok(Err(e)) => f.push((
+                    format!("sequence-error [{} first]", if lazy_first { "lazy" } else { "value" }),
+                    format!("{what} ({how}): {e} for {}", hex(&both)),
+                )),
+                Err(p) => f.push((format!("sequence-panic [{} first]", if lazy_first { "lazy" } else { "value" }), format!("{what} ({how}): {p}"))),
+            }
+        }
+    }
+    f.sort();
+    f.dedup_by(|x, y| x.0 == y.0);
+    f
+}
+
 pub fn check_value(v: &Value, quick: bool, cnt: &Cnt) -> Vec<(String, String)> {
     let Ok(Ok(enc)) = catch(|| serde_amqp::to_vec(v)) else {
         return vec![];
@@ -581,6 +651,21 @@ pub fn run(ctx: &Ctx) -> Outcome {
             out.violation(s, d, json!({"kind": "value", "ref_encoding_hex": rb}));
         }
     }
+    // two values read with one deserializer: every ordered pair of leaves and first-level values that are not
+    // arrays of compounds (known root cause)
+    let seq_vals: Vec<Value> = corpus::leaves()
+        .into_iter()
+        .chain(corpus::level1().into_iter().step_by(2))
+        .filter(|v| crate::c05::array_of_compound(v).is_none() && !crate::c05::zero_width_array(v))
+        .collect();
+    let pairs: Vec<(usize, usize)> = (0..seq_vals.len()).flat_map(|i| (0..seq_vals.len()).map(move |j| (i, j))).collect();
+    let resq = par_map(&pairs, ctx.threads, |_, (i, j)| check_sequence(&seq_vals[*i], &seq_vals[*j]));
+    for ((i, j), fs) in pairs.iter().zip(resq) {
+        for (s, d) in fs {
+            out.violation(s, d, json!({"kind": "sequence", "first": format!("{:?}", seq_vals[*i]), "second": format!("{:?}", seq_vals[*j])}));
+        }
+    }
+    out.set("sequence_pairs", pairs.len() as u64);
     let tv = TypedC20 {
         quick: ctx.quick(),
         cnt: Cnt { reads: AtomicU64::new(0) },
@@ -599,13 +684,13 @@ pub fn run(ctx: &Ctx) -> Outcome {
     out.set("native_typed_values", n_native);
     let frames = frame_payload_cases(ctx, &mut out);
     let reads = cnt.reads.load(Ordering::Relaxed) + tv.cnt.reads.load(Ordering::Relaxed);
-    out.set("evaluations", vals.len() as u64 + t.evaluations + reads + frames);
+    out.set("evaluations", vals.len() as u64 + t.evaluations + reads + frames + 4 * pairs.len() as u64);
     out.set("values", vals.len() as u64);
     out.set("typed_items", t.evaluations);
     out.set("reader_runs", reads);
     out.set("frame_payload_cases", frames);
     out.set("distinct_nontrivial", distinct.into_inner().unwrap().len() as u64 + t.distinct);
-    out.set("rule", "for every corpus value and typed item: serialized_size == to_vec().len(); from_slice == from_reader; with a 264-byte trailer appended, from_reader over a Cursor and over a reader returning at most k bytes per read (every k in 1..=min(len,cap) plus len-1,len,len+1,len+7,4096) consumes exactly the encoding; to_value/from_value vs bytes; every transfer presence subset x 2 representatives x (every first payload byte 0..=255, message prefixes) through the frame decoder. distinct = distinct encodings");
+    out.set("rule", "for every corpus value and typed item: serialized_size == to_vec().len(); from_slice == from_reader; with a 264-byte trailer appended, from_reader over a Cursor and over a reader returning at most k bytes per read (every k in 1..=min(len,cap) plus len-1,len,len+1,len+7,4096) consumes exactly the encoding; to_value/from_value vs bytes; every transfer presence subset x 2 representatives x (every first payload byte 0..=255, message prefixes) through the frame decoder; every ordered pair of leaf / first-level values written back to back and read with ONE deserializer (first as Value or as LazyValue, slice and io reader): the second value is undisturbed. distinct = distinct encodings");
     out.set("exhaustive", true);
     out.set("bound", format!("grammar depth {depth}; chunk cap {}", if ctx.quick() { 24 } else { 300 }));
     out.set(
